@@ -20,10 +20,10 @@ CHECKS = {
          "Cascade closures include reference cycles and self references; a non-nullable fk / unique index of a child store whose part is created over an existing entity; every fifth transaction under a cancelled context.Context. Restrict-inside-cascade order-dependent cases skipped. CascadeCreateUpdate = declared non-enforcement on delete.", "6/C04"),
  "C05": ("exploration", "bounded-exhaustive SetLinks pairs + random link/ref-count histories with structural monitor",
          "Every (current set, requested list) pair over a 4-element universe (thorough: all, quick: sample) plus random histories; both sides of every link / count compared raw and through the API after each transaction.",
-         "Counts that are no counts (negative, beyond int32) may be refused or read as a removal, but must never be stored (model-free part); the model-based histories use counts 0-3.", "6/C05"),
+         "Counts that are no counts (negative, beyond int32) may be refused or read as a removal, but must never be stored (model-free part); the model-based histories use counts 0-3. Link collections inside one store (one symbol on both sides, two fields of the store) and links written by the entity strategy (incl. an update to the empty list) have model-free parts of their own.", "6/C05"),
  "C06": ("exploration", "full-file scan for the deleted id after every committed delete, then re-create and re-check against the model",
          "After each committed delete (incl. cascades) an independent scanner searches every key and value of the file for the id (raw and type-tagged); the id is then re-created and must behave as new.",
-         "Ids are disjoint from all value pools so a hit is a real trace. A model-free part covers a link collection whose two sides are one symbol (self links, links and deletes in one transaction). CascadeCreateUpdate referrers excluded (declared behaviour).", "6/C06"),
+         "Ids are disjoint from all value pools so a hit is a real trace. Model-free parts: link collections inside one store (self links, links and deletes in one transaction), clean-ups that span bbolt pages (hundreds of referrers / links / index entries), an fk index whose target is a child store, a set index over an integer set. CascadeCreateUpdate referrers excluded (declared behaviour).", "6/C06"),
  "C07": ("fault_enumeration", "fault injection at every write primitive and every failure kind x position; dump equality + callback counters",
          "For each transaction body every failure kind is injected at every position, including a storage error at the n-th boltz write primitive for n=1..W via the verif hook; the caller must get an error, the dump must be unchanged, no listener/commit action may run, and the failing store call itself must return non-nil.",
          "Also covers the migration manager as a transaction body and one MutateContext carried through several transactions (incl. overlapping commit actions and a panicking body). Trusted: the verif hook placement (boltz write primitives); bbolt commit failures are out of scope.", "6/C07"),
@@ -32,10 +32,10 @@ CHECKS = {
          "Quiescence by goroutine-count baseline; extended child store judged only for child-created entities.", "6/C08"),
  "C09": ("exploration", "corruption injection; check / fix / re-check compared with the structural monitor's diff and dump equality",
          "Consistent states get random subsets of raw corruptions; every injected inconsistency must be reported, check-only must leave the dump unchanged (read-only and writable tx), one fix pass must converge to a monitor-clean state.",
-         "Report matching is by id/value mention; extra reports on a corrupted db not judged.", "6/C09"),
+         "Report matching is by id/value mention; extra reports on a corrupted db not judged. Also: fk constraints whose target is a child store (raw references to parent-only entities), one-sided links inside one store, a missing index bucket together with a duplicate value.", "6/C09"),
  "C10": ("exploration", "panic / watchdog monitor over grammar-derived, mutated, bounded-exhaustive token sequences and random bytes; junk-character rejection oracle",
          "Every input is parsed and, if accepted, evaluated against datasets incl. nulls and empty stores; a panic or watchdog expiry is a violation; inputs that are non-sentences by construction (unrecognised characters outside strings) must be rejected.",
-         "Datasets include stored values shorter than their type tag (raw writes) and text that is not valid UTF-8 (must be refused). No independent recogniser for the grammar: acceptance of ill-formed text made only of recognised characters is not judged. Termination restated as a per-input watchdog.", "6/C10"),
+         "Literals the lexer accepts and the conversion refuses (1e400, Feb 30, integers beyond int64 in skip / limit) at every list position; simple comparisons with a raw control character or a non-UTF-8 byte inside the literal must be refused. Datasets include stored values shorter than their type tag (raw writes) and text that is not valid UTF-8 (must be refused). No independent recogniser for the grammar: acceptance of ill-formed text made only of recognised characters is not judged. Termination restated as a per-input watchdog.", "6/C10"),
  "C11": ("exploration", "differential over all strings up to a length bound with confusable rows",
          "For every string s over a hostile alphabet, field = lit(s) (and !=, in, contains, anyOf) must match exactly the rows equal to s among s and its confusables; ParseZqlString(lit(s)) = s.",
          "Alphabet and length bound; lit() escapes as the statement describes.", "6/C11"),
@@ -44,22 +44,22 @@ CHECKS = {
          "Bare `not` adjacent to and/or is not judged (statement fixes only not (P)); bool literals occur as operands.", "6/C12"),
  "C13": ("exploration", "write in one transaction / read in a later one over boundary values; codec injectivity by hash set",
          "Every setter/getter pair with boundary values, nested containers, all checker subsets; compound-key codec round trip and pairwise-distinct encodings.",
-         "Reserved list-size key excluded.", "6/C13"),
+         "Reserved list-size key excluded. Two handles on one bucket inside a transaction see each other's writes; a written empty list stays a list; zones of minus one minute / odd seconds.", "6/C13"),
  "C14": ("exploration", "cursor trace vs sorted-slice reference cursor for every cursor kind x subset x seek target",
          "Each cursor kind is driven through random Next/Seek interleavings over all subsets of an 8-element universe and compared step by step with a reference cursor.",
          "Universe of 8 byte strings incl. empty string and shared prefixes.", "6/C14"),
  "C15": ("exploration", "histories through parent, child and extended child stores with structural monitor",
          "Creates/updates/patches/deletes through all three stores; visibility through each store, shared fields, parent indexes and no-trace deletes compared with the model after every transaction.",
-         "A create through a child store over an entity without data in that store is read as an update of the shared part plus new child data (what the repaired code does). A model-free part covers two sibling child stores (plain / extended, with a link collection of its own).", "6/C15"),
+         "A create through a child store over an entity without data in that store is read as an update of the shared part plus new child data (what the repaired code does). A model-free part covers two sibling child stores below one shared path element (plain / extended, with a link collection of its own): presence, lookups and queries by id through every store. Every store's id cursors are also driven through Seek to every id.", "6/C15"),
  "C16": ("exploration", "histories over context kind x entity kind x op with model outcomes and dump equality on refusals",
          "Every combination of system/ordinary context and entity incl. flag flips; outcome vs model; refused transactions leave the dump unchanged; flag never changes.",
          "Every entity of the constrained store is linked (plain and ref-counted collection) to two entities of another store; links, indexes and child-store indexes are compared after every transaction, tolerant callers included.", "6/C16"),
  "C17": ("exploration", "dump equality after restore; stamped-state readers + porcupine register linearizability under the race detector",
          "Sequential: snapshot by every route, mutate, restore, dumps must be equal modulo the two markers; concurrent: readers verify whole-state stamps during restores, history checked with porcupine, race detector on.",
-         "Interleavings sampled. Two restores at the same time (readers that meet half way) must leave one of the two snapshots in full; restore listeners are independent (one waits, bounded, for another). Snapshot / RootBucket inside transactions run next to the restores; bounded progress (no client completes anything for 20 s) is the verdict for hangs, with the goroutine dump as witness.", "6/C17"),
+         "Interleavings sampled. Two restores at the same time (readers that meet half way) must leave one of the two snapshots in full; a snapshot written over an earlier snapshot's file after a restore holds the current state; readers positioned behind a container header are read from where they stand; restore listeners are independent (one waits, bounded, for another). Snapshot / RootBucket inside transactions run next to the restores; bounded progress (no client completes anything for 20 s) is the verdict for hangs, with the goroutine dump as witness.", "6/C17"),
  "C18": ("exploration", "stamped-state readers vs writer under the Go race detector; helper hammering",
          "Readers verify every query/index/link read equals state(g) of one generation; race reports in openziti/storage or antlr are violations.",
-         "Interleavings sampled; literal converters (ParseZqlDatetime / ParseZqlString) are called by goroutines with literals of their own and their results checked; compiled queries are not shared between goroutines (not claimed); providers, role slices and symbol tables are.", "6/C18"),
+         "Interleavings sampled; literal converters (ParseZqlDatetime / ParseZqlString) are called by goroutines with literals of their own and their results checked; ids returned by queries are kept beyond the read transaction and compared three commits later; compiled queries are not shared between goroutines (not claimed); providers, role slices and symbol tables are.", "6/C18"),
  "C19": ("exploration", "three-way differential: ObjectStore vs bolt store vs reference evaluator over the paging boundary grid",
          "Same collections in both stores, same queries; objects, order and count compared pairwise and with the oracle.",
          "Scalar symbols only. Compiled queries are run twice; an empty object store sits behind a slice iterator whose Current is only defined while IsValid.", "6/C19"),
